@@ -73,6 +73,8 @@ type wireRec struct {
 	OTC         uint32   `json:"otc"`
 	EBGPLearned bool     `json:"ebgpLearned"`
 	Redist      bool     `json:"redist"`
+	ID          uint32   `json:"id"`
+	Src         uint32   `json:"src"`
 }
 
 func (w wireRec) key(maskRR bool) string {
@@ -120,6 +122,8 @@ func projectWire(p *route.Path, v6 bool) wireRec {
 		}
 	}
 	w.Redist = p.IsRedistributed()
+	w.ID = a.BGPIdentifier
+	w.Src = nhNum(a.Source, v6)
 	return w
 }
 
@@ -317,8 +321,29 @@ func init() {
 					Pfx   []int     `json:"pfx"`
 					Paths []wireRec `json:"paths"`
 				} `json:"out"`
+				Other []struct {
+					Pfx   []int     `json:"pfx"`
+					Paths []wireRec `json:"paths"`
+				} `json:"other"`
 			}
 			st.Into("st", &exp)
+			// C13: the second session's Adj-RIB-Out is what its own export rules give, whatever the first session did
+			if viaIn && other != nil {
+				for _, e := range exp.Other {
+					bits := bitsOf(e.Pfx)
+					want, got := []string{}, []string{}
+					for _, w := range e.Paths {
+						want = append(want, w.key(!sess.IBGP))
+					}
+					for _, pth := range other.Get(emb.Pfx(bits)).Paths() {
+						got = append(got, projectWire(pth, emb.V6).key(!sess.IBGP))
+					}
+					if kind, missing, extra := core.SetDiff(want, got); kind != "" {
+						return &core.Divergence{Step: i, Action: a, Field: "other-session-adj-rib-out", Kind: kind, Want: want, Got: got,
+							Detail: fmt.Sprintf("pfx=/%s missing=%v extra=%v", bits, missing, extra)}
+					}
+				}
+			}
 			// C13: the Loc-RIB still holds exactly the paths that were added, attribute for attribute
 			for _, e := range exp.Rib {
 				r := lr.Get(emb.Pfx(bitsOf(e.Pfx)))
@@ -328,17 +353,27 @@ func init() {
 					want = append(want, n+" "+string(j))
 				}
 				for _, pth := range r.Paths() {
+					// the stored path must be, attribute for attribute, one of the paths that were added
+					j, _ := json.Marshal(projectFull(pth, emb.V6))
 					name := "?"
 					for _, n := range e.Paths {
-						if pth.Type == route.StaticPathType {
-							if recs[n].Type == "static" && recs[n].NH == nhOfPath(pth, emb.V6) {
-								name = n
-							}
-						} else if recs[n].Type != "static" && recs[n].ID == idOf(pth) {
+						jn, _ := json.Marshal(projectFull(recs[n].build(emb.V6), emb.V6))
+						if string(jn) == string(j) {
 							name = n
 						}
 					}
-					j, _ := json.Marshal(projectFull(pth, emb.V6))
+					if name == "?" {
+						// altered: attribute it to the path with the same identity (identifier + source, or static next hop)
+						for _, n := range e.Paths {
+							if pth.Type == route.StaticPathType {
+								if recs[n].Type == "static" && recs[n].NH == nhOfPath(pth, emb.V6) {
+									name = n
+								}
+							} else if recs[n].Type != "static" && recs[n].ID == idOf(pth) && recs[n].Src == nhNum(pth.BGPPath.BGPPathA.Source, emb.V6) {
+								name = n
+							}
+						}
+					}
 					got = append(got, name+" "+string(j))
 				}
 				if kind, _, _ := core.SetDiff(want, got); kind != "" {
